@@ -487,7 +487,7 @@ func deliveryPhase(r *vkit.Run, scratch string, sampled map[string]bool, attrMis
 			continue
 		}
 		r.Bucket("delivery_sync_full", 1)
-		e, err := buildEnv(c, db)
+		e, err := buildEnv(c, db, nil)
 		if err != nil {
 			r.Violation("config-rejected", "a configuration in the documented grammar was rejected: "+err.Error(), map[string]any{"config": c})
 			continue
@@ -595,7 +595,7 @@ func deliveryPhase(r *vkit.Run, scratch string, sampled map[string]bool, attrMis
 			continue
 		}
 		r.Bucket("delivery_restart_from_cache", 1)
-		e, err = buildEnv(c, db)
+		e, err = buildEnv(c, db, nil)
 		if err != nil {
 			r.Inconclusive("delivery: cannot rebuild the stack: " + err.Error())
 			return
